@@ -102,7 +102,7 @@ def build_motor(c, O, with_current, valid=True):
             strict = list(bad)
             if with_current:
                 strict.append(L.ge(H.SI(i0), H.SI(im)))
-                near = L.le(L.absv(L.sub(i0.value, H.AU.convert("Current", im.value, im.unit, i0.unit))), H.AU.TOL) \
+                near = L.le(L.absv(L.sub(H.SI(i0), H.SI(im))), L.mul(H.AU.TOL, H.AU.fac("Current", i0.unit))) \
                     if not c.concrete else False
                 O.prove("ctor:ValueError-only-for-non-physical-parameters", L.Or(*strict, near), props=("C19",))
             else:
@@ -113,7 +113,7 @@ def build_motor(c, O, with_current, valid=True):
     O.cover("ctor:accepts")
     ok = [L.Not(b) for b in bad]
     if with_current:
-        near = L.le(L.absv(L.sub(i0.value, H.AU.convert("Current", im.value, im.unit, i0.unit))), H.AU.TOL) \
+        near = L.le(L.absv(L.sub(H.SI(i0), H.SI(im))), L.mul(H.AU.TOL, H.AU.fac("Current", i0.unit))) \
             if not c.concrete else False
         ok.append(L.Or(L.lt(H.SI(i0), H.SI(im)), near))
     O.prove("ctor:accepts-only-physical-parameters", L.And(*ok), props=("C19",))
